@@ -262,7 +262,7 @@ TEXT_ADDENDA = {
     "C09": "Constructors of the lattice-based interrupts store dt, t_start, scale and factor as python floats (double precision cursor arithmetic). initialize assigns every cursor attribute that next feeds back before it is read, so a re-used interrupt object restarts its schedule.",
     "C10": "Every equation of a multi-field PDE gets its own operator table; coordinate arguments of the expression rate are bound to cell_coords in the order of grid.axes.",
     "C11": "Printers of logical connectives are decided in two stages (emission interpreted, emitted text evaluated with numpy's binary ufunc semantics on all truth assignments). tools.expressions.evaluate binds every coordinate name of the signature to the coordinate array of its own axis (interpreted slice, every subset of used axes).",
-    "C12": "Every return path of difference_vector passes the periodic wrap; get_random_point draws within the bounds of the grid for both values of avoid_center.",
+    "C12": "Every return path of difference_vector passes the periodic wrap; get_random_point draws within the bounds of the grid for both values of avoid_center; normalize_point converts the point to floating point before the in-place folding (integer coordinates are not truncated).",
     "C13": "noise_var(state, t) is evaluated inside every step closure; make_noise_variance yields one entry per data component carrying the variance of its field. The numpy noise closure is interpreted against a recording generator: call k returns the k-th block of the stream and nothing is drawn ahead.",
     "C14": "The exact-collapse rule also covers the JSON form of `state`; FieldCollection.copy keeps member labels; from_data allocates members with the dtype of the data.",
     "C15": "The duplicate-object test of FieldCollection.__init__ looks at the final list of field objects. Component access passes the parent's dtype, so components are views for every dtype.",
